@@ -5,9 +5,11 @@ mod u09;
 mod u10;
 mod u11;
 mod u16;
+mod u17;
 
 fn main() {
-    main_with(&[Driver { name: "U16", search: u16::search, run: u16::run },
+    main_with(&[Driver { name: "U17", search: u17::search, run: u17::run },
+        Driver { name: "U16", search: u16::search, run: u16::run },
         Driver { name: "U09", search: u09::search, run: u09::run },
         Driver { name: "U10", search: u10::search, run: u10::run },
         Driver { name: "U11", search: u11::search, run: u11::run }]);
